@@ -80,6 +80,24 @@ class UamivReadHeader(Contract):
                                   eq(dims['VAR'].attrs['_len'], self.nspec), eq(dims['TSTEP'].attrs['_unlimited'], True)))]
         if self.whole:
             out.append(('whole-file:all-steps-presented', eq(nt, self.nblocks)))
+        # byte position of every data record inside a time block, read off the dtype objects the code built, against the
+        # published record layout (time header 24 bytes; per species and layer one record: marker 4, ione 4, name 40,
+        # data 4*nx*ny, marker 4) -- the same positions the record-based reader seeks to (C13 proves those)
+        dt = mm.dt
+        try:
+            names = [n for n in dt.names if n != 'DATE']
+            lay_words = add(13, mul(self.nx, self.ny))
+            pos_ok = [eq(dt.offset_of('DATE'), 0), eq(dict(dt.fields)['DATE'].itemsize, 24), len(names) == self.nspec]
+            for si, nm in enumerate(names):
+                sub = dict(dt.fields)[nm]
+                item = sub.base
+                pos_ok += [eq(dt.offset_of(nm), add(24, mul(si, mul(nzd, mul(4, lay_words))))),
+                           eq(item.itemsize, mul(4, lay_words)), len(sub.subshape) == 1, eq(sub.subshape[0], nzd),
+                           eq(item.offset_of('DATA'), 48), eq(dict(item.fields)['DATA'].itemsize, mul(4, mul(self.nx, self.ny))),
+                           eq(item.offset_of('EPAD'), add(48, mul(4, mul(self.nx, self.ny))))]
+            out.append(('layout:record (species s, layer k) of a block starts at 24 + (s*nz + k)*4*(13+nx*ny), data 48 bytes further', And(*pos_ok)))
+        except Exception as e:
+            out.append(('layout:block dtype has the published field structure (%s)' % type(e).__name__, False))
         return out
 
     def on_raise(self, inp, exc, I):
@@ -196,7 +214,8 @@ META = dict(
               'size rule as trusted model); every other reader and the data/time-flag equality by bounded run-time contract over the prefixes of generated files',
     text='Proved for any grid size, layer count, projection code and ANY file length (1 or 2 species; modes r and, with complete header records, r+): '
          'whenever the uamiv memory-mapped reader accepts a file, the file holds exactly header + TSTEP whole time blocks, the data map covers exactly '
-         'those blocks, starts at the published offset and its record dtype has the size of the documented word formula, and the file was not extended; a '
+         'those blocks, starts at the published offset, its record dtype has the size of the documented word formula and places the record of (species s, layer k) at byte '
+         '24 + (s*nz + k)*4*(13 + nx*ny) of a block with the data 48 bytes further (the positions the record-based reader is proved to seek to under C13), and the file was not extended; a '
          'file cut anywhere else raises ValueError; a whole file is never rejected. Bounded: every prefix (quick: every third byte plus every record '
          'boundary +-1; thorough: every byte) of small uamiv / temperature / one3d / height_pressure files either raises or shows only complete leading steps '
          'bit-identical to the full file, and a 30-step file cut near its end in modes r, c, r+.',
